@@ -33,7 +33,7 @@ LUA_FILES = {
 }
 TAB = b'-->8\n'
 CART_CODE = {
-    'inc0': [b'p0=1\n', b'#include inc.lua\n', b'p1=2\n'],
+    'inc0': [b'p0=1\n', b'#include inc.lua\n', b'p1=2 g="\x8b\x10\x99\xff" -- \x80\x1f\n'],
     'inc2': [b't0a=1\n', b't0b=2\n', TAB, b't1a=3\n', b'#include inc.lua\n', TAB, b't2a=4\n'],
     'inc3e': [TAB, TAB, b'x3=1\n', TAB],       # empty tabs 0,1 and 3
     # 13 tabs (0..12): selectors with two digits
@@ -47,7 +47,11 @@ P8_HEAD = b'pico-8 cartridge // http://www.pico-8.com\nversion 33\n'
 
 
 def p8_text(code_lines):
-    return P8_HEAD + b'__lua__\n' + b''.join(code_lines) + b'__gfx__\n' + (b'0' * 128 + b'\n') * 2
+    from pico8.lua import lua
+    code = b''.join(code_lines)
+    if any(c >= 0x80 or c < 0x20 and c not in (9, 10, 13) for c in code):
+        code = lua.p8scii_to_unicode(code).encode('utf-8')      # glyph bytes are spelled in Unicode in a .p8 (C15)
+    return P8_HEAD + b'__lua__\n' + code + b'__gfx__\n' + (b'0' * 128 + b'\n') * 2
 
 
 def png_bytes(code_lines):
